@@ -871,7 +871,7 @@ func valStr(v ssa.Value, depth int) string {
 		}
 		return s
 	case *ssa.Parameter:
-		return x.Name()
+		return RecordedParamName(x)
 	case *ssa.FreeVar:
 		return x.Name()
 	case *ssa.Global:
